@@ -131,8 +131,7 @@ def analyse_cancel(ctx, case, run, S):
         ctx.solve(S, 'valid-eq', '%s: residual[g_%d] == (w_i - w_j)*delta (%s)' % (case['name'], case['coord'], v['action']), side + ['(not (= t%d 0.0))' % num],
                   cfg=cfg, key='C08:offsetting-coefficient', pred='tampered_accepted')
         # and that polynomial is not identically zero: a satisfying assignment must exist (and the F_l shadow is non-zero)
-        ctx.solve(S, 'not-identically-zero', '%s: (w_i - w_j)*delta' % case['name'], ['(not (= t%d 0.0))' % expected.num], expect='sat', cfg=cfg,
-                  key='C08:offsetting-nonzero', pred='tampered_accepted')
+        ctx.solve_nonzero(S, run, '%s: (w_i - w_j)*delta' % case['name'], expected.num, [], cfg=cfg, key='C08:offsetting-nonzero', pred='tampered_accepted')
         # every other coefficient is identically zero (the two members are otherwise honest)
         for b, nid in form.items():
             if b == gk:
